@@ -6,6 +6,7 @@ CONSTANTS
   GroupAuthz = FALSE
   Callers = {"alice", "bob"}
   DeepReload = TRUE
+  LenSet = {0, 1}
   PolicyClients = {"alice"}
 INVARIANTS TypeOK
 PROPERTIES StepsOK
